@@ -64,15 +64,34 @@ func (g *gettyClientHandler) OnOpen(session getty.Session) error {
 			ApplicationId:           conf.ApplicationID,
 			TransactionServiceGroup: conf.TxServiceGroup,
 		}}
-		err := GetGettyRemotingClient().SendAsyncRequest(request)
+		// the identity belongs to this very session, whatever the load balance would pick
+		err := GetGettyRemotingClient().SendAsyncRequestOn(session, request)
 		if err != nil {
 			log.Errorf("OnOpen error: {%#v}", err.Error())
 			sessionManager.releaseSession(session)
 			return
 		}
+		// a re-established session knows nothing of what was announced on the lost one
+		sessionOpenListeners.Range(func(key, value interface{}) bool {
+			value.(SessionOpenListener)(func(msg interface{}) error {
+				return GetGettyRemotingClient().SendAsyncRequestOn(session, msg)
+			})
+			return true
+		})
 	}()
 
 	return nil
+}
+
+// SessionOpenListener is called for every session opened to the coordinator, after the TM registration was sent on
+// it; send writes a request on that session.
+type SessionOpenListener func(send func(msg interface{}) error)
+
+var sessionOpenListeners sync.Map
+
+// AddSessionOpenListener registers listener under name (a later registration under the same name replaces it)
+func AddSessionOpenListener(name string, listener SessionOpenListener) {
+	sessionOpenListeners.Store(name, listener)
 }
 
 func (g *gettyClientHandler) OnError(session getty.Session, err error) {
